@@ -328,6 +328,12 @@ func ParentMain(d Driver, a *Args) int {
 				continue
 			}
 			tail := string(r.out)
+			if strings.Contains(tail, "out of memory") || strings.Contains(tail, "cannot allocate memory") {
+				// resource exhaustion inside the fence (ulimit -v) is infrastructure trouble, not a verdict
+				fmt.Fprintf(os.Stderr, "check: worker %d ran out of memory at item %s (resource fence); not a verdict\n", r.i, item)
+				trouble = true
+				continue
+			}
 			if len(tail) > 1500 {
 				tail = tail[:700] + "\n...\n" + tail[len(tail)-700:]
 			}
